@@ -14,6 +14,7 @@ import (
 	"sort"
 	"strings"
 	"sync"
+	"sync/atomic"
 	"time"
 
 	"github.com/hashicorp/nodeenrollment"
@@ -32,6 +33,39 @@ type kase struct {
 	Native bool     `json:"native"`
 	Client string   `json:"client"` // auth:<extras> | base:<protos> | fetch
 	Seed   int64    `json:"seed"`
+	// Close is how the base listener reports its closure: "" = net.ErrClosed
+	// (a TCP listener), "own-error" = an error value of its own, as session
+	// and in-memory listeners do
+	Close string `json:"close,omitempty"`
+}
+
+// ownErrListener reports closure with its own error value. Asked again and
+// again it eventually answers net.ErrClosed so that a caller that retries
+// forever still terminates; the retries are counted.
+type ownErrListener struct {
+	net.Listener
+	closed    atomic.Bool
+	postClose atomic.Int64
+}
+
+var errSessionShutdown = errors.New("session shutdown")
+
+func (l *ownErrListener) Accept() (net.Conn, error) {
+	if !l.closed.Load() {
+		c, err := l.Listener.Accept()
+		if err == nil || !l.closed.Load() {
+			return c, err
+		}
+	}
+	if l.postClose.Add(1) > 10000 {
+		return nil, net.ErrClosed
+	}
+	return nil, errSessionShutdown
+}
+
+func (l *ownErrListener) Close() error {
+	l.closed.Store(true)
+	return l.Listener.Close()
 }
 
 var clients = []string{
@@ -75,10 +109,16 @@ type delivery struct {
 }
 
 func (w *world) one(k kase, r *engine.Report) (string, string) {
-	base, err := net.Listen("tcp", "127.0.0.1:0")
+	tcp, err := net.Listen("tcp", "127.0.0.1:0")
 	if err != nil {
 		r.InfraError(err.Error())
 		return "", ""
+	}
+	var base net.Listener = tcp
+	var own *ownErrListener
+	if k.Close == "own-error" {
+		own = &ownErrListener{Listener: tcp}
+		base = own
 	}
 	il, err := protocol.NewInterceptingListener(&protocol.InterceptingListenerConfiguration{Context: harness.Ctx, Storage: w.st.Clone(), BaseListener: base, BaseTlsConfiguration: w.baseTLS})
 	if err != nil {
@@ -206,6 +246,12 @@ func (w *world) one(k kase, r *engine.Report) (string, string) {
 		r.InfraError("SplitListener.Start did not return after the base listener was closed")
 		return "", ""
 	}
+	if own != nil {
+		if n := own.postClose.Load(); n > 1 {
+			return "start-retries-after-base-closed", fmt.Sprintf("%s: the base listener reported its closure with an error of its own and was asked to accept %d more times; the split listener kept running", describe(k), n-1)
+		}
+		r.Branch("closed-with-own-error")
+	}
 	doneCh := make(chan struct{})
 	go func() { wg.Wait(); close(doneCh) }()
 	select {
@@ -292,11 +338,11 @@ func clientClass(c string) string {
 }
 
 func describe(k kase) string {
-	return fmt.Sprintf("sub-listeners %v native=%v client %q", k.Subs, k.Native, k.Client)
+	return fmt.Sprintf("sub-listeners %v native=%v client %q close=%q", k.Subs, k.Native, k.Client, k.Close)
 }
 
 func run(c *engine.Ctx, r *engine.Report) {
-	r.Need("routed:@a", "routed:@"+nenet.AuthenticatedNonSpecificNextProto, "routed:@"+nenet.UnauthenticatedNextProto, "routed:closed", "routed:not-authorized")
+	r.Need("routed:@a", "routed:@"+nenet.AuthenticatedNonSpecificNextProto, "routed:@"+nenet.UnauthenticatedNextProto, "routed:closed", "routed:not-authorized", "closed-with-own-error")
 	w := newWorld(c.Seed)
 	i := 0
 	for mask := 0; mask < 16; mask++ {
@@ -308,26 +354,49 @@ func run(c *engine.Ctx, r *engine.Report) {
 		}
 		for _, native := range []bool{false, true} {
 			for _, cl := range clients {
-				i++
-				if !c.Mine(i) {
-					continue
-				}
-				k := kase{subs, native, cl, c.Seed}
-				r.Eval(1)
-				if sig, msg := w.one(k, r); sig != "" {
-					r.Violate(sig, msg, k)
-					continue
-				}
-				r.Nontrivial(1)
-				if i%41 == 2 {
-					r.Sample(k)
+				for _, cm := range []string{"", "own-error"} {
+					i++
+					if !c.Mine(i) {
+						continue
+					}
+					k := kase{Subs: subs, Native: native, Client: cl, Seed: c.Seed, Close: cm}
+					r.Eval(1)
+					if sig, msg := w.one(k, r); sig != "" {
+						r.Violate(sig, msg, k)
+						continue
+					}
+					r.Nontrivial(1)
+					if i%41 == 2 {
+						r.Sample(k)
+					}
 				}
 			}
 		}
 	}
 }
 
+type registryScenario struct {
+	Pre     []string `json:"pre"`     // names registered before the race
+	Getters []string `json:"getters"` // concurrent GetListener calls (name or name/native)
+	Stop    bool     `json:"stop"`    // a thread runs Start over an already closed base listener
+}
+
+func (s registryScenario) String() string {
+	return fmt.Sprintf("pre=%v getters=%v stop=%v", s.Pre, s.Getters, s.Stop)
+}
+
+type registryReplay struct {
+	SchedPhase bool             `json:"sched_phase"`
+	Scenario   registryScenario `json:"scenario"`
+	Choices    []int            `json:"choices"`
+	Bound      int              `json:"bound"`
+}
+
 func replay(c *engine.Ctx, raw json.RawMessage) (string, bool) {
+	var rr registryReplay
+	if json.Unmarshal(raw, &rr) == nil && rr.SchedPhase {
+		return replayRegistry(c, rr)
+	}
 	var k kase
 	if err := json.Unmarshal(raw, &k); err != nil {
 		return err.Error(), false
@@ -343,11 +412,13 @@ func init() {
 	engine.Register(&engine.CheckDef{
 		ID:    "C17",
 		Level: "exploration",
-		Rule: "every subset of sub-listeners {a, b, __AUTH__, __UNAUTH__} (16) x native connections {off,on} x 15 client kinds (authenticated with extras [], [a], [b], [a,b], [x], [certificate-preference entry, a], [certificate-preference entry, x], [__AUTH__], [__UNAUTH__]; base-TLS clients offering [], [a], [__AUTH__], [__UNAUTH__], a certificate-preference entry; a fetch-only client) = 480 real topologies over the real InterceptingListener + SplitListener; the receiving sub-listener answers with its name so routing is observed deterministically; afterwards the base listener is closed and every sub-listener must report net.ErrClosed; " +
+		Rule: "every subset of sub-listeners {a, b, __AUTH__, __UNAUTH__} (16) x native connections {off,on} x 15 client kinds (authenticated with extras [], [a], [b], [a,b], [x], [certificate-preference entry, a], [certificate-preference entry, x], [__AUTH__], [__UNAUTH__]; base-TLS clients offering [], [a], [__AUTH__], [__UNAUTH__], a certificate-preference entry; a fetch-only client) x base listener closure reported {as net.ErrClosed, as an error value of its own} = 960 real topologies over the real InterceptingListener + SplitListener; the receiving sub-listener answers with its name so routing is observed deterministically; afterwards the base listener is closed, Start must stop without asking it again and every sub-listener must report net.ErrClosed; scheduler phase (sub-listener registry, get-or-create): 2-3 concurrent GetListener calls for the same / different names, with and without pre-registered names, and with Start stopping over a closed base listener at the same time, every interleaving within 2 preemptions (1 with the stop thread; +1 in the thorough tier) plus all interleavings up to sleep-set equivalence of the two-caller scenarios - all callers of one name must hold the one registered object and every handle must report closed after the stop; " +
 			"distinct_nontrivial counts topologies (distinct by construction) that were routed and judged",
 		Assumptions: []string{"when several registered names match the client's extras any of them may receive the connection (map iteration order)", "GetListener after close is documented as unsupported and not exercised"},
 		Shards:      func(c *engine.Ctx) int { return 8 },
 		Run:         run,
+		SchedRun:    schedRun,
+		SchedShards: 4,
 		Replay:      replay,
 	})
 }
